@@ -20,7 +20,10 @@ def encode(c):
             "deformation_gradient_spin": [hx(x) for x in c["S"].reshape(-1)],
             "stress_exponent": hx(c["p"]), "deformation_exponent": hx(c["nexp"]),
             "nucleation_efficiency": hx(c["lam"]), "gbm_mobility": hx(c["M"]),
-            "volume_fraction": hx(c["phi"]), "kinds": list(c.get("kinds", ()))}
+            "volume_fraction": hx(c["phi"]), "kinds": list(c.get("kinds", ())),
+            "relative_to_output_scale": bool(c.get("relscale", False)),
+            "presentation": ({"ordinals_spelled_as": c["present"][0], "array_layout": c["present"][1], "keyword_arguments": bool(c["present"][2])}
+                             if c.get("present") else None)}
 
 
 def decode(d):
@@ -34,12 +37,20 @@ def decode(d):
                 S=np.array([u(x) for x in d["deformation_gradient_spin"]]).reshape(3, 3),
                 p=u(d["stress_exponent"]), nexp=u(d["deformation_exponent"]),
                 lam=u(d["nucleation_efficiency"]), M=u(d["gbm_mobility"]), phi=u(d["volume_fraction"]),
-                kinds=tuple(d.get("kinds", ())))
+                kinds=tuple(d.get("kinds", ())), relscale=bool(d.get("relative_to_output_scale", False)),
+                present=((d["presentation"]["ordinals_spelled_as"], d["presentation"]["array_layout"], d["presentation"]["keyword_arguments"])
+                         if d.get("presentation") else None))
 
 
 def impl(core, c):
+    """one call of derivatives; a case may carry a presentation (spelling of the ordinals, memory layout of one array argument,
+    keyword arguments) of the same values"""
     try:
-        Ad, fd = G.call_impl(core, c)
+        if c.get("present"):
+            sp, lay, kw = c["present"]
+            Ad, fd = G.call_presented(core, c, sp, lay, kw)
+        else:
+            Ad, fd = G.call_impl(core, c)
         return ("OK", Ad, fd)
     except Exception as e:  # noqa: BLE001
         return ("ERR", common.exc_code(e), str(e))
@@ -57,6 +68,8 @@ def oracle(core, c, r=None):
     A = c["O"]
     S = np.einsum("nij,nkj->nik", Ad, A) + np.einsum("nij,nkj->nik", A, Ad)
     scale = max(1.0, float(np.abs(Ad).max()))
+    if c.get("relscale"):       # inputs of any magnitude: skewness is judged relative to the size of the rates
+        scale = max(float(np.abs(Ad).max()), 1e-300)
     if np.abs(S).max() > 1e-10 * scale:
         g = int(np.unravel_index(np.abs(S).argmax(), S.shape)[0])
         fails.append(f"orientation rate of grain {g} is not A composed with a skew spin: |Ad.A^T + A.Ad^T| = {np.abs(S).max():.3e}")
@@ -110,11 +123,48 @@ def gen_cases(chk, tier):
     for n in ((1, 2, 3, 1000) if tier == "quick" else (1, 2, 3, 1000, 10000, 100000)):
         for pair in ((0, 0), (0, 2), (1, 5)):
             cases.append(G.case(rng, n_grains=n, pair=pair))
+    # exponents at integers / half-integers / range ends; L of magnitude 1e-15 .. 1e12 handed directly to derivatives (own streams)
+    cases += G.param_grid_cases(chk.seed, tier)
+    cases += G.magnitude_cases(chk.seed, tier)
     # near ties of slip-system activity (relative gap 0 .. 5e-10, opposite and equal signs of the invariants; own stream)
     cases += G.near_tie_cases(chk.seed, tier)
     # block-boundary grain counts (independent stream: the cases above are unchanged)
     cases += G.block_cases(np.random.default_rng([chk.seed, 0xB10C]), tier)
     return cases
+
+
+def presentation_cases(chk, tier, spellings=None, layouts=True):
+    """cases that carry a presentation of their arguments (G.presentation_plan): `spellings` restricts the spellings of the
+    ordinals (None = all planned), `layouts` includes the array-layout presentations"""
+    out = []
+    hist = chk.cov.setdefault("presentations", {})
+    for c, sp, lay, kw in G.presentation_plan(chk.seed, tier):
+        if lay is None and spellings is not None and sp not in spellings:
+            continue
+        if lay is not None and not layouts:
+            continue
+        key = f"{sp}/{lay or 'C-contiguous'}/{'keyword' if kw else 'positional'}"
+        hist[key] = hist.get(key, 0) + 1
+        out.append(dict(c, present=(sp, lay, bool(kw)), kinds=tuple(c["kinds"]) + (key,)))
+    return out
+
+
+def block_close(xs, ys, split, rtol):
+    """|a - b| <= rtol x (largest magnitude in the block), separately for the orientation-rate block and the volume-rate
+    block: for inputs of any magnitude (common.close compares against max(1, |a|, |b|), which makes tiny outputs equal)"""
+    if len(xs) != len(ys):
+        return False, -1
+    a, b = np.asarray(xs, dtype=float), np.asarray(ys, dtype=float)
+    if not (np.all(np.isfinite(a)) and np.all(np.isfinite(b))):
+        return common.vec_close(list(xs), list(ys), rtol=rtol)
+    for lo, hi in ((0, split), (split, len(a))):
+        if hi <= lo:
+            continue
+        sc = max(float(np.abs(a[lo:hi]).max()), float(np.abs(b[lo:hi]).max()))
+        d = np.abs(a[lo:hi] - b[lo:hi])
+        if sc > 0 and float(d.max()) > rtol * sc:
+            return False, lo + int(d.argmax())
+    return True, None
 
 
 def compare(chk, core, cases, entry="derivs", rtol=1e-9):
@@ -147,7 +197,11 @@ def compare(chk, core, cases, entry="derivs", rtol=1e-9):
                 bad.append((c, f"implementation: {r[:2]}, model: {m[:2] if m[0]=='ERR' else 'OK'}"))
             continue
         flat = list(r[1].reshape(-1)) + list(r[2])
-        okc, idx = common.vec_close(flat, m[1], rtol=rtol if cls == "none" else max(rtol, 1e-7))
+        rt = rtol if cls == "none" else max(rtol, 1e-7)
+        if c.get("relscale"):
+            okc, idx = block_close(flat, m[1], 9 * c["ng"], rt)
+        else:
+            okc, idx = common.vec_close(flat, m[1], rtol=rt)
         if not okc and not near:
             a = flat[idx] if 0 <= idx < len(flat) else None
             b = m[1][idx] if 0 <= idx < len(m[1]) else None
@@ -204,7 +258,9 @@ def run(chk):
                        "(Haar orientations, 5 flow families, 4 volume families, p in [1,2], n in [2,5], lam in [0,10], M in [0,200], phi in (0,1], "
                        "n_grains 1..64 and 1e3 [thorough: up to 1e5]) + near ties of slip-system activity (every olivine fabric x every pair of systems with independent invariants x "
                        "opposite / equal signs, relative gap 0..5e-10, and grains rotated about [100] to the tie angle in simple shear; compared at 1e-7 when the tie is among the "
-                       "most active systems, where the model is continuous; excluded only when the least active system is involved) + block-boundary grain counts (2^k - 1, 2^k, 2^k + 1 for k <= 14 [thorough 16], "
+                       "most active systems, where the model is continuous; excluded only when the least active system is involved) + deformation exponent on {2, 2.5, ..., 5} x every "
+                       "pair x both regimes + L of magnitude 1e-15 .. 1e12 handed directly to derivatives (compared and judged relative to the output scale) + presentations "
+                       "(ordinals as enum members / numpy ints / mixed, keyword arguments, one array argument Fortran-ordered / strided / read-only) + block-boundary grain counts (2^k - 1, 2^k, 2^k + 1 for k <= 14 [thorough 16], "
                        "multiples of 64/128/256/1000/1024; both regimes up to 2049 grains); distinct = distinct (regime, phase, fabric, n, O, L, f) byte-wise; "
                        "non-trivial = not all returned rates are zero")
     bad = []
@@ -213,7 +269,10 @@ def run(chk):
         bad += compare(chk, core, cases, "derivs")
         small = [c for c in cases if c["ng"] <= 3]
         bad += compare(chk, core, small, "kderivs")
-        chk.cov["traces_validated_against_impl"] = len(cases) + len(small)
+        # the same values presented differently: array arguments Fortran-ordered / strided / read-only / aliased, ordinals as enum members
+        pcases = presentation_cases(chk, chk.tier, spellings=("enum",) if chk.tier == "quick" else None, layouts=True)
+        bad += compare(chk, core, pcases, "derivs")
+        chk.cov["traces_validated_against_impl"] = len(cases) + len(small) + len(pcases)
     chk.cov["disagreements"] = len(bad)
     if ok and not bad:
         return
